@@ -14,7 +14,8 @@
 EXTENDS Level, Json
 
 CONSTANTS Scenarios,      \* sequence of [init |-> seq of orders, progs |-> seq (one per thread) of seq of calls]
-          EmitReplays     \* TRUE: print one REPLAY line per distinct terminal state
+          EmitReplays,    \* TRUE: print one REPLAY line per distinct terminal state
+          TrackHist       \* FALSE: do not record the schedule (needed for liveness checking: finite graph)
 
 VARIABLES sc,             \* index of the scenario
           sh, th, k,      \* shared state, thread-local states, next call index per thread
@@ -67,7 +68,7 @@ StepT(t) ==
         /\ th' = [th EXCEPT ![t] = a.me]
         /\ k'  = [k EXCEPT ![t] = a.k]
         /\ gh' = a.gh
-  /\ hist' = Append(hist, t)
+  /\ hist' = IF TrackHist THEN Append(hist, t) ELSE hist
   /\ UNCHANGED <<sc>>
 
 AllIdle == \A t \in ThreadsOf(sc) : th[t].pc = "idle"
@@ -94,6 +95,12 @@ Drain ==
 Next == Run \/ StartDrain \/ Drain
 
 Spec == Init /\ [][Next]_vars
+
+(* Liveness (C06 as a temporal property): under weak fairness of the next-state action every
+   behaviour reaches the end of the drain, i.e. every call of every thread returns.  The graph
+   must be finite: TrackHist = FALSE.  The instance with the zero-display spin (D4) has a lasso. *)
+LiveSpec == Spec /\ WF_vars(Next)
+Terminates == <>(phase = "done")
 
 -----------------------------------------------------------------------------
 (* Properties (the monitors of Level.tla on the model's own state) *)
